@@ -51,6 +51,8 @@ impl Frame {
         Read::read_exact(reader, &mut len).map_err(Error::ReadFailed)?;
         let len = u32::from_ne_bytes(len);
 
+        #[cfg(rink_verif_sim)]
+        simkit::shim::child::alloc_point(len as usize);
         self.buf.resize(len as usize, 0);
         Read::read_exact(reader, &mut self.buf).map_err(Error::ReadFailed)?;
 
@@ -83,6 +85,8 @@ impl Frame {
         V: Serialize,
     {
         let bytes = bincode::serialize(value)?;
+        #[cfg(rink_verif_sim)]
+        simkit::shim::child::alloc_point(bytes.len());
         let len = u32::to_ne_bytes(bytes.len() as u32);
         writer.write_all(&len).map_err(Error::WriteFailed)?;
         writer.write_all(&bytes).map_err(Error::WriteFailed)?;
